@@ -17,6 +17,7 @@ NOT_RAW = {"self", "Self", "super", "crate", "_"}
 IDENT_RE = re.compile(r"^(r#)?[A-Za-z_][A-Za-z0-9_]*$")
 CASE_NORMALISERS = {"to_pascal_case", "to_snake_case", "to_class_case", "to_camel_case"}
 IDENT_GUARDS = {"as_identifier", "legal_identifier", "sanitize_identifier", "to_identifier"}
+CASE_NORMALISERS = ("to_pascal_case", "to_class_case", "to_snake_case", "to_camel_case")
 INT_TYPES = {"i8", "i16", "i32", "i64", "i128", "u8", "u16", "u32", "u64", "u128", "usize", "isize", "bool"}
 DISPLAY = "<model::field::RustFieldType as std::fmt::Display>::fmt"
 RENAME = "model::field::rename_keywords"
@@ -219,6 +220,9 @@ def run(ck, F):
                   "keyword table and a legal-identifier guard; numeric holes are integer-typed; doc-comment text is split on \\n and \\r; no "
                   "tainted text inside block comments")
     ck.rule("R2", "keyword table: every strict/reserved keyword maps to a different, legal identifier (r#kw, but never r#self/r#crate/r#super/r#Self); weak keywords may map to themselves")
+    ck.rule("R4", "every legal-identifier guard on an identifier hole's chain establishes, for all input strings, a result that is non-empty, not the lone "
+                  "underscore, starts with `_`/XID_Start and continues with XID_Continue (finite-domain evaluation of the guard's HIR over "
+                  "character classes; unsupported operations are undecided)")
     ck.rule("R3", "every identifier-position hole passes through the keyword table (or is a PascalCase name, which only needs `Self` handled)")
     X = T.extractor(F)
     CE = og.CallExpander(F)
@@ -270,6 +274,7 @@ def run(ck, F):
     stream += [(T.IEmit(ev, ev.parts, ev.ctx, ()), {"self": "model::field::RustFieldType"}) for ev in X.events.get(DISPLAY, []) if ev.kind == "emit"]
     n_holes = 0
     seen = set()
+    used_guards = set()
 
     def chains_of(nf, root_ty, depth=0):
         """All sanitiser chains (outermost first) that can produce the value, following model-field summaries."""
@@ -381,6 +386,11 @@ def run(ck, F):
                                 problems.add("`Self` not handled")
                             if not guard:
                                 problems.add("no legal-identifier guard (empty name, leading digit, or characters the normaliser keeps)")
+                            else:
+                                gi = min(j for j, c in enumerate(chain) if c in IDENT_GUARDS)
+                                if any(c in CASE_NORMALISERS for c in chain[:gi]):
+                                    problems.add("a case normaliser runs after the legal-identifier guard and can undo it (`__` becomes the empty string)")
+                                used_guards.update(c for c in chain if c in IDENT_GUARDS)
                         r3 = sorted(p for p in problems if "keyword" in p or "Self" in p)
                         r1 = sorted(p for p in problems if p not in r3)
                         if r3:
@@ -406,6 +416,8 @@ def run(ck, F):
                     else:
                         ck.undecided("R1", f"context:{key}", ev.site, f"hole in unclassified context {ctx}")
     ck.floor("R1", "tainted holes classified", n_holes, 40)
+    # ---- R4: the guards the identifier holes rely on establish the lexical definition of an identifier
+    _guard_bodies(ck, F, used_guards)
 
 
 def _split_on_both(nf):
@@ -454,3 +466,46 @@ def _hole_desc(ev, i):
                 break
     clean = lambda s: re.sub(r"\s+", " ", s)
     return (clean(left)[-16:] + "{}" + clean(right)[:10]).strip()
+
+
+def _guard_bodies(ck, F, used):
+    from engine.rulekit import identguard as IG
+    bodies = {}
+    for b in F.lib.bodies:
+        if b.get("kind") == "fn" or not b.get("closure"):
+            bodies.setdefault(b["path"], b)
+    cache = {}
+
+    def local_fn(path):
+        b = bodies.get(path)
+        if b is None or b.get("hir") is None:
+            return None
+        if path not in cache:
+            cache[path] = Hh.norm_body(b)
+        return cache[path]
+
+    n = 0
+    for name in sorted(used):
+        cands = [p for p in bodies if p.rsplit("::", 1)[-1] == name and bodies[p].get("hir") is not None]
+        if not cands:
+            ck.undecided("R4", f"guard:{name}", "-", f"identifier holes rely on `{name}` but the crate has no function of that name with a body")
+            continue
+        for p in cands:
+            b = bodies[p]
+            site = b.get("span", "-")
+            n += 1
+            try:
+                nb = local_fn(p)
+                tried, cex, classes = IG.decide(nb, local_fn)
+            except IG.Unsupported as u:
+                ck.undecided("R4", f"guard:{name}", u.sp or site, f"{p}: {u.what}: the guard is outside the operation set whose post-condition can be decided")
+                continue
+            except Hh.Unrecognised as u:
+                ck.undecided("R4", f"guard:{name}", site, f"{p}: {u.what}")
+                continue
+            if not cex:
+                ck.ok("R4", f"guard:{name}", site, f"{p}: {tried} input strings (length <= {IG.BOUND} over {classes} character classes) all map to legal identifiers", fn=name)
+            for kind, (inp, out, why) in sorted(cex.items()):
+                ck.violation("R4", f"guard:{name}:{kind}", site,
+                             f"{p}: for the name {inp!r} the guard returns {out!r}: {why}; the generated item does not parse", fn=name)
+    ck.floor("R4", "identifier guards decided", n, 1)
